@@ -45,6 +45,8 @@ def main():
     }
     with open(os.path.join(vlib.VERIF, 'MANIFEST.json'), 'w') as f:
         json.dump(m, f, indent=1)
+    with open(os.path.join(vlib.VERIF, 'known_findings.json'), 'w') as f:
+        json.dump(vlib.load_findings(), f, indent=1)
     print('MANIFEST.json: %d checks, %d not claimed' % (len(checks), len(not_applicable)))
 
 main()
